@@ -44,6 +44,39 @@ fn lines_applesoft(tok: &[u8]) -> Vec<(u16,Vec<u8>)> {
 pub fn dispatch(toks: &[&str]) -> String {
     match toks[0] {
         "tokrt" => tokrt(toks),
+        "applyright" => {
+            // applyright id linehex c0 c1 texthex ... : lang::apply_edits on a one-line document (edits given in any order)
+            let line = as_text(if toks[2]=="-" { "" } else { toks[2] });
+            let mut edits = Vec::new();
+            let mut k = 3;
+            while k+2 < toks.len() {
+                let (c0,c1) = (num(toks[k]) as u32,num(toks[k+1]) as u32);
+                let t = as_text(if toks[k+2]=="-" { "" } else { toks[k+2] });
+                edits.push(lsp_types::TextEdit::new(lsp_types::Range::new(lsp_types::Position::new(0,c0),lsp_types::Position::new(0,c1)),t));
+                k += 3;
+            }
+            match lang::apply_edits(&line,&edits,0) { Ok(s) => format!("{}.",tohex(s.as_bytes())), Err(_) => "err".to_string() }
+        },
+        "renum" => {
+            // renum id lang beg end first step reorder hextext
+            let src = as_text(toks[8]);
+            let (beg,end,first,step) = (num(toks[3]) as usize,num(toks[4]) as usize,num(toks[5]) as usize,num(toks[6]) as usize);
+            let flags = if toks[7]=="1" { 1 } else { 0 };
+            match toks[2] {
+                "applesoft" => {
+                    if lang::verify_str(tree_sitter_applesoft::language(),&src).is_err() { return "rejected".to_string(); }
+                    let mut r = lang::applesoft::renumber::Renumberer::new();
+                    r.set_flags(flags);
+                    match r.renumber(&src,beg,end,first,step) { Ok(s) => format!("ok {}.",tohex(s.as_bytes())), Err(_) => "refused".to_string() }
+                },
+                _ => {
+                    if lang::verify_str(tree_sitter_integerbasic::language(),&src).is_err() { return "rejected".to_string(); }
+                    let mut r = lang::integer::renumber::Renumberer::new();
+                    r.set_flags(flags);
+                    match r.renumber(&src,beg,end,first,step) { Ok(s) => format!("ok {}.",tohex(s.as_bytes())), Err(_) => "refused".to_string() }
+                }
+            }
+        },
         "escas" => {
             // escas id ctx hex : escape with the applesoft detokenizer's settings, then parse the text back
             let b = unhex(toks[3]);
